@@ -36,6 +36,15 @@ DIRECTED = {
     "push_constant_needs_cap": "var<push_constant> p: vec4<f32>;\n@fragment fn f() -> "
                                "@location(0) vec4<f32> { return p; }",
     "workgroup_size_zero": "@compute @workgroup_size(0) fn f() { }",
+    # diagnostics far above any "reasonable" size, multi-byte text at every byte alignment
+    "long_line_unknown_ident_a": "@compute @workgroup_size(1) fn f() { let s = " + "\u00e9" * 3000
+                                 + "; }",
+    "long_line_unknown_ident_b": "@compute @workgroup_size(1) fn f() { let sx = " + "\u4e2d" * 2500
+                                 + "; }",
+    "long_line_type_error_a": "@fragment fn f() -> @location(0) vec4<f32> { var x: i32 = 1; x = 2u;"
+                              " /* " + "\u00e9\U0001F600" * 1500 + " */ return vec4<f32>(0.0); }",
+    "long_line_type_error_b": "@fragment fn f() -> @location(0) vec4<f32> { var xy: i32 = 1; xy = "
+                              "2u; /* " + "\u4e2d" * 2600 + " */ return vec4<f32>(0.0); }",
     # two defects: a missing capability first (in the validator's order), an unrelated semantic
     # error later - the reported error must be the validator's for the REQUESTED capability set
     "cap_then_store_to_pc": "var<push_constant> consts: vec4<f32>;\n@fragment fn fs_main() -> "
